@@ -185,7 +185,7 @@ package scheduler
 //@   modifies node.data.State, node.data.Step.CmdWithArgs, node.data.Step.Stdout, node.data.Step.Stderr, node.data.Step.Dir,
 //@            node.data.Step.Command, node.data.Step.Args, node.logFile, node.logWriter, node.stdoutFile, node.stdoutWriter,
 //@            node.stderrFile, node.stderrWriter, node.scriptFile, node.cmd, node.cancelFunc, node.outputReader, node.outputWriter, node.done,
-//@            ghost nsetup, ghost nexec, ghost execfail, ghost dirty, ghost ntear, ghost eff.exec, ghost eff.fs, ghost eff.env, heap(alloc), ghost obs.run_calls, ghost obs.run_err, ghost outvar.stores, ghost outvar.key, ghost outvar.val, ghost env.key, ghost env.val, ghost obs.buf_string
+//@            ghost nsetup, ghost nexec, ghost execfail, ghost dirty, ghost ntear, ghost eff.exec, ghost eff.fs, ghost eff.env, heap(alloc), heap(elems(string)), ghost fs.*, ghost fw.*, ghost bw.*, ghost obs.exists*, ghost obs.stat*, ghost obs.run_calls, ghost obs.run_err, ghost outvar.stores, ghost outvar.key, ghost outvar.val, ghost env.key, ghost env.val, ghost obs.buf_string
 //@   records hruns = old(hruns) + 1
 //@   records hlog = upd(old(hlog), old(hruns), node)
 //@   ensures err == nil
@@ -208,27 +208,73 @@ package scheduler
 //@ ghost dirty map[*Node]bool      // the node has executed since its resources were last torn down
 //@ ghost ntear map[*Node]int       // teardowns of a node's resources
 
+// setup opens the files of ONE attempt.  It re-arms teardown (done = false): the buffered writers created here hold
+// the attempt's output until teardown flushes them, and a retry runs setup again on a node already torn down once.
 //@ fn (*Node).setup(n, logDir, requestID) (err)
 //@   props C03 C12
-//@   trusted
-//@   modifies n.data.State.StartedAt, n.data.State.Log, n.data.State.Error, n.data.Step.CmdWithArgs, n.data.Step.Stdout,
+//@   modifies n.done, n.data.State.StartedAt, n.data.State.Log, n.data.State.Error, n.data.Step.CmdWithArgs, n.data.Step.Stdout,
 //@            n.data.Step.Stderr, n.data.Step.Dir, n.logFile, n.logWriter, n.stdoutFile, n.stdoutWriter, n.stderrFile,
-//@            n.stderrWriter, n.scriptFile, ghost nsetup, ghost eff.env, ghost eff.fs
-//@   ensures nsetup == upd(old(nsetup), n, old(nsetup[n]) + 1)
+//@            n.stderrWriter, n.scriptFile, heap(alloc), ghost nsetup, ghost eff.env, ghost env.key, ghost env.val, ghost eff.fs,
+//@            ghost fs.*, ghost fw.*, ghost obs.exists*, ghost obs.stat*
+//@   records nsetup = upd(old(nsetup), n, old(nsetup[n]) + 1)
+//@   ensures [C12 setup_rearms_teardown] !n.done
+//@   ensures [C12 log_is_opened_under_the_name_in_the_status] err == nil ==>
+//@        (n.logFile != nil && file_name(n.logFile) == n.data.State.Log && n.logWriter != nil && bw_file(n.logWriter) == n.logFile)
+//@   ensures [C12 stdout_file_is_opened_when_configured] err == nil && n.data.Step.Stdout != "" ==>
+//@        (n.stdoutFile != nil && n.stdoutWriter != nil && bw_file(n.stdoutWriter) == n.stdoutFile && n.stdoutWriter != n.logWriter)
+//@   ensures [C12 fresh_writers_have_no_flush_yet] bw.flushes == old(bw.flushes)
+
+//@ fn (*Node).setupLog(n) (err)
+//@   props C12
+//@   modifies n.logFile, n.logWriter, n.data.State.Error, heap(alloc), ghost eff.fs, ghost fs.*, ghost obs.exists*, ghost obs.stat*
+//@   ensures [C12 log_is_opened_under_the_name_in_the_status] err == nil && n.data.State.Log != "" ==>
+//@        (n.logFile != nil && file_name(n.logFile) == n.data.State.Log && n.logWriter != nil && bw_file(n.logWriter) == n.logFile &&
+//@         !wasAllocated(n.logWriter) && allocated(n.logWriter))
+
+//@ fn (*Node).setupStdout(n) (err)
+//@   props C12
+//@   modifies n.stdoutFile, n.stdoutWriter, n.data.State.Error, heap(alloc), ghost eff.fs, ghost fs.*, ghost obs.exists*, ghost obs.stat*
+//@   ensures [C12 stdout_file_is_opened_when_configured] err == nil && n.data.Step.Stdout != "" ==>
+//@        (n.stdoutFile != nil && n.stdoutWriter != nil && bw_file(n.stdoutWriter) == n.stdoutFile && !wasAllocated(n.stdoutWriter))
+//@   ensures n.data.Step.Stdout == "" ==> (err == nil && eff.fs == old(eff.fs) && n.stdoutWriter == old(n.stdoutWriter))
+
+//@ fn (*Node).setupStderr(n) (err)
+//@   props C12
+//@   modifies n.stderrFile, n.stderrWriter, n.data.State.Error, heap(alloc), ghost eff.fs, ghost fs.*, ghost obs.exists*, ghost obs.stat*
+//@   ensures err == nil && n.data.Step.Stderr != "" ==> (n.stderrFile != nil && n.stderrWriter != nil && bw_file(n.stderrWriter) == n.stderrFile)
+//@   ensures n.data.Step.Stderr == "" ==> (err == nil && eff.fs == old(eff.fs) && n.stderrWriter == old(n.stderrWriter))
+
+//@ fn (*Node).setupScript(n) (err)
+//@   props C12
+//@   modifies n.scriptFile, heap(alloc), ghost eff.fs, ghost fs.*, ghost fw.*, ghost obs.exists*, ghost obs.stat*
+//@   ensures n.data.Step.Script == "" ==> (err == nil && eff.fs == old(eff.fs) && n.scriptFile == old(n.scriptFile))
 
 // Execute: the step's outcome is the outcome of its command.  Whatever else Execute does (output capture, log
 // path export), the error it returns is the one the executor's Run returned; if no command was run it is an error.
 //@ ghost obs.run_calls int         // executor Run() calls so far
 //@ ghost obs.run_err error         // what the last Run() returned
+// setupExec wires the command's stdout and stderr.  Whatever the configuration, the log's buffered writer is a
+// destination of both streams (stderr: unless a stderr file is configured), the stdout file's writer is a destination of
+// stdout, and every destination is a library writer that accepts all bytes.
 //@ fn (*Node).setupExec(n, ctx) (cmd, err)
 //@   props C02 C11 C12
-//@   trusted
-//@   modifies n.data.Step.Command, n.data.Step.Args, n.cmd, n.cancelFunc, n.outputReader, n.outputWriter, heap(alloc), ghost eff.fs
-//@   ensures err == nil ==> cmd != nil
+//@   requires n.logWriter != nil
+//@   modifies n.data.Step.Command, n.data.Step.Args, n.cmd, n.cancelFunc, n.outputReader, n.outputWriter, heap(alloc), heap(elems(string)),
+//@            ghost eff.fs, ghost eff.exec
+//@   ensures err == nil ==> cmd != nil && n.cmd == cmd
+//@   expect calls (dag/executor.Executor).SetStdout >= 1
+//@   expect calls (dag/executor.Executor).SetStderr >= 1
+//@   assert before (dag/executor.Executor).SetStdout [C12 stdout_reaches_the_log] sink_of(arg1, n.logWriter)
+//@   assert before (dag/executor.Executor).SetStdout [C12 stdout_reaches_the_stdout_file] n.stdoutWriter != nil ==> sink_of(arg1, n.stdoutWriter)
+//@   assert before (dag/executor.Executor).SetStdout [C12 stdout_sinks_accept_every_byte] total_sink(arg1)
+//@   assert before (dag/executor.Executor).SetStderr [C12 stderr_reaches_the_log_or_the_stderr_file]
+//@        sink_of(arg1, n.logWriter) || (n.stderrWriter != nil && sink_of(arg1, n.stderrWriter))
+//@   assert before (dag/executor.Executor).SetStderr [C12 stderr_sinks_accept_every_byte] total_sink(arg1)
 
 //@ fn (*Node).Execute(n, ctx) (err)
 //@   props C02 C03 C11 C12
-//@   modifies n.data.State.Error, n.data.Step.Command, n.data.Step.Args, n.cmd, n.cancelFunc, n.outputReader, n.outputWriter, heap(alloc),
+//@   requires [C12 executes_with_an_open_log] n.logWriter != nil
+//@   modifies n.data.State.Error, n.data.Step.Command, n.data.Step.Args, n.cmd, n.cancelFunc, n.outputReader, n.outputWriter, heap(alloc), heap(elems(string)),
 //@            ghost obs.run_calls, ghost obs.run_err, ghost outvar.stores, ghost outvar.key, ghost outvar.val, ghost eff.exec, ghost eff.env, ghost eff.fs,
 //@            ghost env.key, ghost env.val, ghost obs.buf_string
 //@   records nexec = upd(old(nexec), n, old(nexec[n]) + 1)
@@ -244,26 +290,46 @@ package scheduler
 //@   ensures [C11 capture_is_exported_trimmed] outvar.stores != old(outvar.stores) ==>
 //@        (eff.env != old(eff.env) && env.key == n.data.Step.Output && env.val == trim_space(obs.buf_string))
 
+// teardown: an armed teardown (done == false) flushes the log's and the stdout file's buffered writers, syncs and closes
+// the files and disarms itself; a disarmed one does nothing.  Only an armed teardown makes the node clean again.
 //@ fn (*Node).teardown(n) (err)
 //@   props C03 C12
-//@   trusted
-//@   modifies n.done, n.data.State.Error, ghost dirty, ghost ntear, ghost eff.fs
-//@   ensures dirty == upd(old(dirty), n, false)
-//@   ensures ntear == upd(old(ntear), n, old(ntear[n]) + 1)
+//@   modifies n.done, n.data.State.Error, heap(alloc), ghost dirty, ghost ntear, ghost eff.fs, ghost fs.*, ghost bw.*
+//@   records dirty = upd(old(dirty), n, ite(old(n.done), old(dirty[n]), false))
+//@   records ntear = upd(old(ntear), n, old(ntear[n]) + 1)
+//@   ensures [C12 teardown_disarms_itself] n.done
+//@   ensures [C12 disarmed_teardown_does_nothing] old(n.done) ==> (err == nil && bw.flushes == old(bw.flushes) && eff.fs == old(eff.fs))
+//@   ensures [C12 armed_teardown_flushes_the_log] !old(n.done) && n.logWriter != nil ==> bw.flushes[n.logWriter] > old(bw.flushes[n.logWriter])
+//@   ensures [C12 armed_teardown_flushes_the_stdout_file] !old(n.done) && n.stdoutWriter != nil ==> bw.flushes[n.stdoutWriter] > old(bw.flushes[n.stdoutWriter])
+//@   loop 0 invariant forall w *bufio.Writer :: bw.flushes[w] >= old(bw.flushes[w])
+//@   loop 0 invariant idx >= 0 && n.logWriter != nil ==> bw.flushes[n.logWriter] > old(bw.flushes[n.logWriter])
+//@   loop 0 invariant idx >= 1 && n.stdoutWriter != nil ==> bw.flushes[n.stdoutWriter] > old(bw.flushes[n.stdoutWriter])
+//@   loop 0 modifies ghost bw.*
+//@   assert before (*os.File).Sync [C12 synced_file_is_the_log_or_the_stdout_file] arg0 == n.logFile || arg0 == n.stdoutFile
+//@   expect calls (*bufio.Writer).Flush >= 1
+//@   expect calls (*os.File).Sync >= 1
+//@   expect calls (*os.File).Close >= 1
 
 // dry-run gating (C03): with sc.dry none of the three touches a node, a file or a process
 //@ fn (*Scheduler).setupNode(sc, node) (err)
 //@   props C03 C12
 //@   modifies node.data.State.StartedAt, node.data.State.Log, node.data.State.Error, node.data.Step.CmdWithArgs, node.data.Step.Stdout,
 //@            node.data.Step.Stderr, node.data.Step.Dir, node.logFile, node.logWriter, node.stdoutFile, node.stdoutWriter, node.stderrFile,
-//@            node.stderrWriter, node.scriptFile, ghost nsetup, ghost eff.env, ghost eff.fs
+//@            node.stderrWriter, node.scriptFile, node.done, ghost nsetup, ghost eff.env, ghost env.key, ghost env.val, ghost eff.fs,
+//@            heap(alloc), ghost fs.*, ghost fw.*, ghost obs.exists*, ghost obs.stat*
 //@   ensures [C03 dry_no_setup] sc.dry ==> err == nil && nsetup == old(nsetup) && eff.fs == old(eff.fs) && eff.env == old(eff.env) &&
-//@        node.data.State.Error == old(node.data.State.Error)
+//@        node.data.State.Error == old(node.data.State.Error) && node.done == old(node.done)
 //@   ensures !sc.dry ==> nsetup == upd(old(nsetup), node, old(nsetup[node]) + 1)
+//@   ensures [C12 setup_rearms_teardown] !sc.dry ==> !node.done
+//@   ensures [C12 log_is_opened_under_the_name_in_the_status] !sc.dry && err == nil ==>
+//@        (node.logFile != nil && file_name(node.logFile) == node.data.State.Log && node.logWriter != nil && bw_file(node.logWriter) == node.logFile)
+//@   ensures [C12 stdout_file_is_opened_when_configured] !sc.dry && err == nil && node.data.Step.Stdout != "" ==>
+//@        (node.stdoutFile != nil && node.stdoutWriter != nil && bw_file(node.stdoutWriter) == node.stdoutFile)
 
 //@ fn (*Scheduler).execNode(sc, ctx, n) (err)
 //@   props C02 C03 C12
-//@   modifies n.data.State.Error, n.data.Step.Command, n.data.Step.Args, n.cmd, n.cancelFunc, n.outputReader, n.outputWriter, heap(alloc),
+//@   requires [C12 executes_with_an_open_log] !sc.dry ==> n.logWriter != nil
+//@   modifies n.data.State.Error, n.data.Step.Command, n.data.Step.Args, n.cmd, n.cancelFunc, n.outputReader, n.outputWriter, heap(alloc), heap(elems(string)),
 //@            ghost nexec, ghost execfail, ghost dirty, ghost eff.exec, ghost eff.env, ghost eff.fs, ghost obs.run_calls, ghost obs.run_err, ghost outvar.stores, ghost outvar.key, ghost outvar.val, ghost env.key, ghost env.val, ghost obs.buf_string
 //@   ensures [C02 step_outcome_is_command_outcome] !sc.dry && obs.run_calls == old(obs.run_calls) + 1 ==> err == obs.run_err
 //@   ensures [C02 no_command_no_success] !sc.dry && obs.run_calls == old(obs.run_calls) ==> err != nil
@@ -275,9 +341,13 @@ package scheduler
 
 //@ fn (*Scheduler).teardownNode(sc, node) (err)
 //@   props C03 C12
-//@   modifies node.done, node.data.State.Error, ghost dirty, ghost ntear, ghost eff.fs
-//@   ensures [C03 dry_no_teardown] sc.dry ==> err == nil && ntear == old(ntear) && dirty == old(dirty) && eff.fs == old(eff.fs)
-//@   ensures [C12 teardown_cleans] !sc.dry ==> dirty == upd(old(dirty), node, false) && ntear == upd(old(ntear), node, old(ntear[node]) + 1)
+//@   modifies node.done, node.data.State.Error, ghost dirty, ghost ntear, ghost eff.fs, heap(alloc), ghost fs.*, ghost bw.*
+//@   ensures [C03 dry_no_teardown] sc.dry ==> err == nil && ntear == old(ntear) && dirty == old(dirty) && eff.fs == old(eff.fs) &&
+//@        node.done == old(node.done) && bw.flushes == old(bw.flushes)
+//@   ensures [C12 armed_teardown_cleans] !sc.dry ==> (node.done && ntear == upd(old(ntear), node, old(ntear[node]) + 1) &&
+//@        dirty == upd(old(dirty), node, ite(old(node.done), old(dirty[node]), false)))
+//@   ensures [C12 armed_teardown_flushes_the_log] !sc.dry && !old(node.done) && node.logWriter != nil ==> bw.flushes[node.logWriter] > old(bw.flushes[node.logWriter])
+//@   ensures [C12 armed_teardown_flushes_the_stdout_file] !sc.dry && !old(node.done) && node.stdoutWriter != nil ==> bw.flushes[node.stdoutWriter] > old(bw.flushes[node.stdoutWriter])
 
 //@ fn (*Node).setErr(n, err)
 //@   props C02 C03
@@ -347,6 +417,8 @@ package scheduler
 //@   ensures [C12 torn_down_after_last_execution] old(!sc.dry) ==> !dirty[node]
 //@   loop 0 invariant sc == old(sc) && node == old(node) && w_scope(sc, node) == old(w_scope(sc, node)) && sc.dry == old(sc.dry)
 //@   loop 0 invariant old(!sc.dry) ==> nsetup == upd(old(nsetup), node, old(nsetup[node]) + 1)
+//@   loop 0 invariant [armed_while_dirty] old(!sc.dry) ==> (dirty[node] ==> !node.done)
+//@   loop 0 invariant [log_open_after_setup] old(!sc.dry) && setupSucceed ==> node.logWriter != nil
 //@   loop 0 invariant [a] old(w_scope(sc, node)) ==> nexec == old(nexec)
 //@   loop 0 invariant [b] old(w_scope(sc, node)) ==> node.data.State.RetryCount == old(node.data.State.RetryCount)
 //@   loop 0 invariant [c] old(w_scope(sc, node)) ==> node.data.Step.RetryPolicy == old(node.data.Step.RetryPolicy)
@@ -361,6 +433,7 @@ package scheduler
 //@            heap(elems(string)), heap(elems(dag.Condition)),
 //@            ghost launch, ghost hruns, ghost hlog, ghost nsetup, ghost nexec, ghost execfail, ghost dirty, ghost ntear,
 //@            ghost eff.exec, ghost eff.env, ghost eff.fs, ghost eff.condfail, ghost eff.waited,
+//@            ghost fs.*, ghost fw.*, ghost bw.*, ghost obs.exists*, ghost obs.stat*,
 //@            ghost obs.run_calls, ghost obs.run_err, ghost outvar.stores, ghost outvar.key, ghost outvar.val, ghost env.key, ghost env.val, ghost obs.buf_string
 //@   records eff.sched = old(eff.sched) + 1
 //@   ensures [C03 scheduling_keeps_the_graph] nodes_wf(g) && graph_wf(g)
